@@ -180,6 +180,17 @@ Additions for the randomised steps (scoring/rand.py, the hold-out splits, the DB
                       not listed - the generator argument, `.random`, `default_rng`, a new helper, an import - is refused
   cfg["typed_loop_vars"]     True: a `for` loop's variable is bound with its declared type (`let x : T := it in`), for bodies
                       from which Coq cannot infer the element type
+Additions for the training data of the sparse-combo models (core.py add_observations, models/sparse_combo*.py, data.py):
+  cfg["float_literals"]  (Gallina template over {n} {d}, type): a float constant `c` in expression position is the template at
+                      the exact decimal value n/d of its shortest repr (0.01 -> n=1, d=100); without the key a float constant
+                      is refused as before.  (A negative literal is a unary minus and stays refused.)
+  cfg["defaultdict_list"] [names]: `d[k].append(e)` where d is a bound variable of type `dict (list T)`, or a declared field
+                      `x.attr` of that type, whose name is listed: PyRt.dict_append (a missing key is inserted last with [e], an
+                      existing key keeps its place and its list gets e at the end).  The configuration TRUSTS that the object
+                      is a collections.defaultdict(list) (on a plain dict a missing key would be a KeyError).  The variable
+                      (the object x) is rebound.  Any other `<subscript>.append(...)` is refused.
+  cfg["typed_targets"]  True: the targets of a `for` loop are bound with their declared types (`let x : T := it in`), which Coq
+                      needs when the body tests a target (`if mask:`) before the iterated list has fixed its type
 """
 import ast
 
@@ -406,6 +417,12 @@ class Tr:
             if isinstance(e.value, float) and repr(e.value) in self.cfg.get("float_consts", {}):
                 term, ty = self.cfg["float_consts"][repr(e.value)]
                 return "(%s)" % term, parse_type(ty)
+            if isinstance(e.value, float) and self.cfg.get("float_literals") is not None and e.value == e.value \
+                    and e.value not in (float("inf"), float("-inf")):
+                from fractions import Fraction
+                fr = Fraction(repr(e.value))      # the decimal value of the literal's shortest repr
+                tmpl, ty = self.cfg["float_literals"]
+                return "(" + tmpl.format(n=fr.numerator, d=fr.denominator) + ")", parse_type(ty)
             raise Unsupported("constant: %r" % (e.value,))
         if isinstance(e, ast.List):
             if not e.elts:
@@ -767,6 +784,8 @@ class Tr:
                     add(eff[0])
                 elif self.field_append(st.value) is not None:     # x.attr.append(e) rebinds x
                     add(self.field_append(st.value)[0])
+                elif self.dd_append(st.value) is not None:        # d[k].append(e) / x.attr[k].append(e) rebinds d / x
+                    add(self.dd_append(st.value)[0])
                 elif isinstance(st.value, ast.Call) and isinstance(st.value.func, ast.Attribute) \
                         and st.value.func.attr in ("append", "add") and isinstance(st.value.func.value, ast.Name):
                     add(st.value.func.value.id)
@@ -1024,6 +1043,8 @@ class Tr:
             if self.field_append(c) is not None:
                 x, attr, arg = self.field_append(c)
                 return self.field_store(x, attr, arg, True, env, hoist, rest, k, ind)
+            if self.dd_append(c) is not None:
+                return self.dd_store(c, env, hoist, rest, k, ind)
             if not (isinstance(c, ast.Call) and isinstance(c.func, ast.Attribute) and isinstance(c.func.value, ast.Name)):
                 raise Unsupported("expression statement: " + ast.unparse(st)[:80])     # e.g. np.random.seed(0), f(x)
             n = c.func.value.id
@@ -1183,6 +1204,42 @@ class Tr:
         else:
             v = self.need(v, vt, fty, hoist)
         txt = "%slet %s : %s := %s in\n" % (ind, x, coq_type(owner), setter.format(obj=x, val=v))
+        return self.bind_hoist(hoist, txt, ind) + self.block(rest, env, k, ind)
+
+    # ---- defaultdict(list) buckets (cfg["defaultdict_list"])
+    def dd_append(self, call):
+        """d[k].append(e) with d a variable, or a declared field x.attr, listed in cfg["defaultdict_list"]
+        -> (the variable that is rebound, attr or None, k, e), else None"""
+        names = self.cfg.get("defaultdict_list", [])
+        if not (isinstance(call, ast.Call) and isinstance(call.func, ast.Attribute) and call.func.attr == "append"
+                and len(call.args) == 1 and not call.keywords and isinstance(call.func.value, ast.Subscript)):
+            return None
+        d = call.func.value.value
+        if isinstance(d, ast.Name) and d.id in [rn(n) for n in names]:
+            return d.id, None, call.func.value.slice, call.args[0]
+        if self.field_target(d) is not None and d.attr in names:
+            return d.value.id, d.attr, call.func.value.slice, call.args[0]
+        return None
+
+    def dd_store(self, call, env, hoist, rest, k, ind):
+        """d[k].append(e) on a defaultdict(list): PyRt.dict_append; the variable (the object) is rebound"""
+        x, attr, key, arg = self.dd_append(call)
+        if attr is None:
+            dt, cur = env.get(x), x
+        else:
+            owner, dt, getter, setter = self.fields[attr]
+            if env.get(x) != owner:
+                raise Unsupported("bucket append to attribute %s of %s, which is not a bound %s" % (attr, x, owner))
+            cur = "(" + getter.format(obj=x) + ")"
+        if dt is None or dt[0] != "dictof" or dt[1][0] != "list":
+            raise Unsupported("bucket append to something that is not a dict of lists: " + ast.unparse(call))
+        kk, kt = self.expr(key, env, hoist)
+        vv, vt = self.expr(arg, env, hoist)
+        term = "(dict_append %s %s %s)" % (cur, self.need(kk, kt, ("Z",), hoist), self.need(vv, vt, dt[1][1], hoist))
+        if attr is None:
+            txt = "%slet %s := %s in\n" % (ind, x, term)
+        else:
+            txt = "%slet %s : %s := %s in\n" % (ind, x, coq_type(owner), setter.format(obj=x, val=term))
         return self.bind_hoist(hoist, txt, ind) + self.block(rest, env, k, ind)
     def narrow_test(self, st, env):
         """cfg["narrow_none"]: (x, T, body when x is not None, body when x is None) if [st] tests exactly `x is None` /
@@ -1386,7 +1443,7 @@ class Tr:
         for n, t, tv in zip(tnames, elt, tvars):
             if n != "_":
                 env_body[n] = t
-                if self.cfg.get("typed_loop_vars"):     # the loop variable with its declared type (Coq cannot always infer it)
+                if self.cfg.get("typed_loop_vars") or self.cfg.get("typed_targets"):     # the loop variable with its declared type (Coq cannot always infer it)
                     pre += "%s    let %s : %s := %s in\n" % (ind, n, coq_type(t), tv)
                     continue
                 pre += "%s    let %s := %s in\n" % (ind, n, tv)
